@@ -2,6 +2,7 @@ use crate::engine::{Ctx, PropInfo, Verdict};
 use serde_json::Value;
 
 pub mod c01;
+pub mod c02;
 pub mod c05;
 pub mod c06;
 pub mod c07;
@@ -21,7 +22,7 @@ pub struct PropDef {
 }
 
 pub fn all() -> Vec<PropDef> {
-    vec![c01::def01(), c01::def03(), c01::def04(), c05::def05(), c05::def12(), c06::def(), c07::def(), c08::def(), c13::def(), c14::def(), c15::def(), c15::def16(), c17::def(), c19::def()]
+    vec![c01::def01(), c01::def03(), c01::def04(), c02::def02(), c02::def11(), c05::def05(), c05::def12(), c06::def(), c07::def(), c08::def(), c13::def(), c14::def(), c15::def(), c15::def16(), c17::def(), c19::def()]
 }
 
 pub fn find(id: &str) -> Option<PropDef> {
